@@ -56,6 +56,24 @@ Theorem C18_device_reads :
   (forall a d n, In (d, n) (match snd (a_step s (GetDeviceByDevAddr a)) with RDevs l => l | _ => [] end)
                  <-> In d (a_devs s) /\ rd_addr d = a /\ n = nonces_of s (rd_eui d)).
 Proof. exact device_reads. Qed.
+(* the two single-statement counter operations the pipeline relies on (C03, C07, C09): a compare-and-store of the
+   expected uplink counter and a fetch-and-increment of the downlink counter - refined by the SQL statements
+   (C18_storage_is_the_registry) like every other operation *)
+Theorem C18_advance_is_compare_and_store :
+  forall s e a nf kw,
+    dev_at (fst (a_step s (AdvanceFCntUp e a nf kw))) e
+    = option_map (fun old => if rd_fup old <=? a then upd_dev_state old nf (rd_fdn old) kw else old) (dev_at s e).
+Proof. exact advance_is_compare_and_store. Qed.
+Theorem C18_advance_answers_ok_iff_not_passed :
+  forall s e a nf kw,
+    snd (a_step s (AdvanceFCntUp e a nf kw)) = ROk <-> exists d, In d (a_devs s) /\ rd_eui d = e /\ rd_fup d <= a.
+Proof. exact advance_answers_found_iff_stored. Qed.
+Theorem C18_next_is_fetch_and_increment :
+  forall s e,
+    snd (a_step s (NextFCntDn e)) = match dev_at s e with Some d => RCnt (rd_fdn d) | None => RNotFound end /\
+    dev_at (fst (a_step s (NextFCntDn e))) e
+    = option_map (fun old => upd_dev_state old (rd_fup old) ((rd_fdn old + 1) mod 65536) (rd_kw old)) (dev_at s e).
+Proof. exact next_is_fetch_and_increment. Qed.
 Theorem C18_one_device_per_eui : forall s o, unique_devs s -> unique_devs (fst (a_step s o)).
 Proof. exact one_device_per_eui. Qed.
 Theorem C18_each_operation_writes_its_own_table :
@@ -92,3 +110,6 @@ Print Assumptions C18_deleted_device_is_gone.
 Print Assumptions C18_device_reads.
 Print Assumptions C18_one_device_per_eui.
 Print Assumptions C18_each_operation_writes_its_own_table.
+Print Assumptions C18_advance_is_compare_and_store.
+Print Assumptions C18_advance_answers_ok_iff_not_passed.
+Print Assumptions C18_next_is_fetch_and_increment.
